@@ -1,14 +1,26 @@
 (* Dispatch table of the model entry points used by the correspondence check. *)
 From Coq Require Import ZArith NArith List String.
+From Cfi Require Import Py.PyStr Py.PyCodec.
 From Cfi Require Import Glue.Sx Model.Version Model.Dll Model.DllRun Py.PrimEntry Model.LineRun Model.ReaderRun Model.IO Model.View Model.World.
 Import ListNotations.
 Open Scope string_scope.
+
+(* C16: (encoding text) -> what is on disk after writing text with the declared encoding, and what a text-mode read of those
+   bytes returns (decoded, newlines translated) *)
+Definition run_C16 (arg : sx) : sx :=
+  match encoding_of_Z (sxZ (sxnth 0 arg)) with
+  | Some e =>
+      let b := encode_with e (sxS (sxnth 1 arg)) in
+      L [Sopt (fun l => L (map SN l)) b;
+         Sopt Sstr (match b with Some bs => option_map translate_nl (decode_with e bs) | None => None end)]
+  | None => L [I (-998)%Z]
+  end.
 
 Definition entries : list (string * (sx -> sx)) :=
   [ ("C19", run_C19);
     ("C19seq", fun a => L (map run_C19 (sxL a)));
     ("C07", run_C07); ("C08", run_C08); ("C15", run_C15);
-    ("PRIM", run_prim);
+    ("PRIM", run_prim); ("CODEC", run_codec); ("C16", run_C16);
     ("FIELD", run_field); ("LINE", run_line);
     ("REGFILE", run_regfile); ("REGSTREAM", run_regstream); ("BLOCKFILE", run_blockfile); ("SECTIONFILE", run_sectionfile);
     ("C17", run_C17); ("C20", run_C20); ("C14", run_C14) ].
